@@ -170,6 +170,14 @@ pub fn c13() -> DiffProp {
     );
     sweep5.enumerated = Some((40, 1280, false));
     sweep5.cfg = cfg_no_range_identity;
+    let mut bnd = Fam::custom(
+        "boundary_sweep",
+        Box::new(|b: &[u8]| (string_sweep(&nth_boundary_string(idx_of(b)), false), vec!["sweep_boundary"])),
+        0, 0, 8,
+    );
+    // quick: all strings of <= 2 boundary code points (157); thorough: <= 3 (1885)
+    bnd.enumerated = Some((boundary_count_upto(2), boundary_count_upto(3), true));
+    bnd.cfg = cfg_no_range_identity;
     let mut seq = Fam::custom(
         "seq_sweep",
         Box::new(|b: &[u8]| (seq_sweep(idx_of(b) as usize), vec!["seq"])),
@@ -185,8 +193,8 @@ pub fn c13() -> DiffProp {
     gen5.cfg = DiffCfg::default;
     DiffProp {
         id: "C13",
-        families: vec![sweep3, sweep5, seq, conv, rnd, gen5],
-        rule: "cases: (string_sweep, exhaustive) every string of <=3 characters (quick) / <=4 characters (thorough) over {a, é, €, 😀}, each with every index in [-len-2, len+2] and {0.5, -0.5, NaN, +-inf, +-2^63, 2^53, 1e300}, every slice (begin, end) pair in [-len-1, len+1]^2, find with every needle of <=2 characters from every start, replace, split, starts/ends_with with every needle, len/count_chars/classification/to_bytes/to_code_points/iteration/char_byte_index, byte and code-point round trips, wrong kinds and arities; (string_sweep_long) strings of 4-5 characters with strided slices; (seq_sweep, exhaustive) vec and tuple indexing, slicing and element assignment for lengths 0-4 (0-6 thorough); (conversions) to_num texts, from_utf8 with truncated/overlong/surrogate sequences, from_ascii, from_code_points; (random_ops) longer strings; (general) expression programs. Oracle: byte-level string model (harness/src/strmodel.rs, no std string searching) inside the reference interpreter; every result or error class printed and compared. Non-trivial: the subject contains a multi-byte character or a conversion is exercised; distinct by program text.",
+        families: vec![sweep3, sweep5, bnd, seq, conv, rnd, gen5],
+        rule: "cases: (string_sweep, exhaustive) every string of <=3 characters (quick) / <=4 characters (thorough) over {a, é, €, 😀}, each with every index in [-len-2, len+2] and {0.5, -0.5, NaN, +-inf, +-2^63, 2^53, 1e300}, every slice (begin, end) pair in [-len-1, len+1]^2, find with every needle of <=2 characters from every start, replace, split, starts/ends_with with every needle, len/count_chars/classification/to_bytes/to_code_points/iteration/char_byte_index, byte and code-point round trips, wrong kinds and arities; (string_sweep_long) strings of 4-5 characters with strided slices; (boundary_sweep, exhaustive) the same sweep over every string of <=2 (thorough: <=3) code points from the edges of the UTF-8 encoding lengths and the surrogate gap {U+7F, U+80, U+7FF, U+800, U+E01, U+FFF, U+1000, U+D7FF, U+E000, U+FFFF, U+10000, U+10FFFF}; (seq_sweep, exhaustive) vec and tuple indexing, slicing and element assignment for lengths 0-4 (0-6 thorough); (conversions) to_num texts, from_utf8 with truncated/overlong/surrogate sequences, from_ascii, from_code_points; (random_ops) longer strings; (general) expression programs. Oracle: byte-level string model (harness/src/strmodel.rs, no std string searching) inside the reference interpreter; every result or error class printed and compared. Non-trivial: the subject contains a multi-byte character or a conversion is exercised; distinct by program text.",
         nontrivial: nt_c13,
         floors: vec![("ev:err:IndexError", 5_000), ("ev:err:ValueError", 500), ("ev:err:TypeError", 500)],
         assumptions: vec!["from_ascii of 128..191 is not defined by any test and is excluded", "every string yarel prints reaches the harness as a Rust String, i.e. valid UTF-8, or the run panics"],
@@ -201,7 +209,7 @@ pub fn c14() -> DiffProp {
     DiffProp {
         id: "C14",
         families: vec![Fam::custom("import_graphs", Box::new(crate::gen_mod::program), 60_000, 500_000, 260)],
-        rule: "cases: import graphs over 1-6 generated modules (some missing, some that do not compile) with forward, backward and self edges (DAGs, diamonds, self-loops, longer cycles); imports at top level, inside functions called once or twice, inside try blocks and under aliases; every module prints load tags, defines the globals `tag` and `counter` (as main does) and functions that read and write them, reads built-ins (type, Error, StopIter, iterators) and tries to read a global that only main defines; main reads and sets module attributes, calls module functions, prints its own globals after every import and compares module objects. Served by an in-memory loader. Oracle: reference interpreter (module registry: absent / loading / loaded, one module object per path, globals per module) vs yarel; import failures compared by class. Non-trivial: a module was imported again after it had been loaded and >=3 imports ran; distinct by program text.",
+        rule: "cases: import graphs over 1-6 generated modules (some missing, some that do not compile) with forward, backward and self edges (DAGs, diamonds, self-loops, longer cycles); imports at top level, inside functions called once or twice, inside try blocks and under aliases; every module prints load tags, defines the globals `tag` and `counter` (as main does) and functions that read and write them, reads built-ins (type, Error, StopIter, iterators) and tries to read a global that only main defines; some module bodies fail part-way (an unguarded import of a cycle or a missing module, or a throw) and are imported again afterwards; importers read and set module attributes, call module functions, run a module's function as a fiber body across two yields, pass their own closures into module functions, catch exceptions raised inside module functions (with and without finally), and print their own globals after every step; main compares module objects. Served by an in-memory loader. Oracle: reference interpreter (module registry: absent / loading / loaded, one module object per path, globals per module) vs yarel; import failures compared by class. Non-trivial: a module was imported again after it had been loaded and >=3 imports ran; distinct by program text.",
         nontrivial: nt_c14,
         floors: vec![("ev:import_again", 3_000), ("ev:import_cycle", 1_000), ("gen:import_in_function", 3_000), ("gen:bad_module", 1_000), ("gen:module_identity", 300), ("gen:set_attribute", 1_000)],
         assumptions: vec!["every import statement in a generated module body is guarded, so a module body never ends in an exception (re-importing a module whose body threw is not defined by the statement)"],
